@@ -258,6 +258,27 @@ def property_checks(bat, rng, n):
                           "what": "holder's last stamp %d, U=%d, acquire by another client with stamp %d answered %r, table %s"
                                   % (t0, U, t0 + U + d, ok, lc.table_of(impl)),
                           "replay": {"kind": "prop", "U": U, "stamps": stamps}})
+    # (d) command logs whose stamps are arbitrarily older than the entries around them (commit delay per
+    # command 0, < U/4, ~U, > U, several U): a held lock leaves its holder only by his release or by a stamp
+    # later than lock time + U
+    for _ in range(n):
+        U = rng.choice((1, 4, 8, 10))
+        keep = lc.KeepMonitor(bat, U)
+        now, cmds = rng.randrange(0, 20), []
+        for _ in range(rng.randrange(3, 14)):
+            now += rng.choice((0, 1, max(1, U // 2 - 1), U, U + 1))
+            t = max(0, now - rng.choice((0, 0, 0, max(1, U // 4) - 1, U - 1, U + 1, U + 2, 2 * U + 1, 3 * U)))
+            c, l = rng.randrange(1, 4), rng.randrange(1, 3)
+            q = rng.random()
+            cmd = ("acq", l, c, t) if q < 0.5 else ("pro", c, t) if q < 0.9 else ("rel", l, c)
+            cmds.append(cmd)
+            _, kv, _ = keep.apply(cmd)
+            if kv is not None:
+                kv["what"] = "log %s (U=%d): %s" % ([lc.cmd_str(x) for x in cmds], U, kv["what"])
+                kv["replay"] = {"kind": "prop-keep", "U": U, "cmds": [list(x) for x in cmds]}
+                viols.append(kv)
+                break
+        done += 1
     return viols, done
 
 
@@ -322,6 +343,15 @@ def search(ctx, unproved):
 
 def replay(ctx, violation):
     bat = lc.load_batteries(ctx.repo)
+    rp = violation.get("replay") or {}
+    if rp.get("kind") == "prop-keep":
+        keep = lc.KeepMonitor(bat, rp["U"])
+        for cmd in rp["cmds"]:
+            _, kv, _ = keep.apply(tuple(cmd))
+            if kv is not None:
+                return {"violated": kv["signature"] == violation.get("signature"), "what": kv["what"],
+                        "table": lc.table_of(keep.impl)}
+        return {"violated": False, "table": lc.table_of(keep.impl)}
     viols, _ = property_checks(bat, ctx.rng("locks.impl.prop"), ctx.scale(300, 5000))
     viols += property_checks(bat, ctx.rng("locks.impl.search"), ctx.scale(3000, 50000))[0]
     same = [v for v in viols if v["signature"] == violation.get("signature")]
